@@ -366,3 +366,268 @@ Proof. split; eexists; (split; [vm_compute; reflexivity|]); split; vm_compute; r
    ToJSON does not write (white space, nested values: outside the Coq reader), and the correspondence of
    frame_to_json / read_json with the implementation is by composition of executed parts (to_json,
    append_quoted_string, AppendFloat64f, itoa, abs, new_frame), not by an engine case of their own. *)
+
+(* ---------------------------------------------------------------- the frame-level engine families (wave 4)
+   The strings engine now runs frame_to_json and read_json themselves against the implementation (families
+   json-frame / json-read, Corr/StringsCorr.v check_jframe / check_jread: exact comparison = code 1) and,
+   separately, decides C14's text on what the implementation returned with specification-level oracles
+   (code 2) that do not call the model of the code under test:
+     json_table_oracle t out   the Coq RFC 8259 reader decodes out to one object per row of the logical table t,
+                               in row order, keys = sanitized column names in column order, and every value
+                               denotes its cell (cell_denoted: ints by value; a float by a decimal inside the
+                               rounding interval of that float, with its sign, zero as zero; NaN / null strings
+                               as null; strings as their sanitized code points; bools);
+     readback_oracle           when the source frame satisfies the decided premises of C14_readback
+                               (rb_premises) the frame that came back has no Err and its logical table is the
+                               source table with int cells replaced by the nearest float (int_to_float_spec).
+   The theorems below say that these oracles are implied by C14_valid / C14_readback: on the model's own output
+   they hold and the whole check returns 0.  Hence, in a case where the implementation agrees byte for byte with
+   the model, code 2 can only be raised when a premise fails for that concrete input. *)
+From QF Require Import Base.CaseLib Corr.StringsCorr Proofs.JsonCorrProofs.
+
+(* the float test of the oracle is the interval test of the C16 certificate checker *)
+Theorem C14_oracle_interval_is_sc_in (fd : fdec) (k : Z) (y : N) :
+  in_round_interval fd k y = RyuShortest.sc_in fd k y.
+Proof. exact (in_round_interval_sc_in fd k y). Qed.
+Print Assumptions C14_oracle_interval_is_sc_in.
+
+(* json-frame.  Premises: those of C14_valid, and for every float cell of the frame that the decimal of the
+   Ryu model lies in the rounding interval of that float (ryu_ok b: C16's open statement asked of the floats
+   of this frame only; a frame without finite non-zero floats needs nothing). *)
+Theorem C14_frame_oracle_from_valid_partial (f : frame) (t : table) :
+  ferr f = false -> abs f = Ok t ->
+  Forall (Forall cell_ok) (trows t) -> Forall (Forall cell_ryu_ok) (trows t) ->
+  exists out, frame_to_json f = Ok out /\ json_table_oracle t out = true /\ check_jframe f (Some out) = 0.
+Proof. exact (frame_oracle_from_valid f t). Qed.
+Print Assumptions C14_frame_oracle_from_valid_partial.
+
+(* the five-type example frame of C14_valid satisfies the premises (0.1, NaN, -0 as floats) *)
+Example C14_frame_oracle_example :
+  exists t, ferr C14_example_frame = false /\ abs C14_example_frame = Ok t /\
+            Forall (Forall cell_ok) (trows t) /\ Forall (Forall cell_ryu_ok) (trows t).
+Proof.
+  eexists. split; [reflexivity|]. split; [vm_compute; reflexivity|].
+  split; cbn [trows].
+  - repeat (constructor; try exact I; try (split; reflexivity)).
+  - repeat (constructor; try exact I);
+      intros fd m e DF ED; vm_compute in DF; vm_compute in ED;
+      try discriminate; inversion DF; inversion ED; subst; vm_compute; reflexivity.
+Qed.
+(* and a document that differs from the model's in one float digit is rejected by the oracle *)
+Example C14_frame_oracle_rejects :
+  let f := mkFrame [(bs 1 0x66, FCol [0x3FB999999999999A])] [0%nat] false in
+  check_jframe f (Some (bs 11 0x5B7B2266223A302E317D5D)) = 0 /\          (* [{"f":0.1}] *)
+  check_jframe f (Some (bs 11 0x5B7B2266223A302E327D5D)) = 2 /\          (* [{"f":0.2}] *)
+  check_jframe f (Some (bs 12 0x5B7B2266223A31652D317D5D)) = 1.          (* [{"f":1e-1}]: right value, other text *)
+Proof. vm_compute. repeat split. Qed.
+
+(* json-read.  Premises: those of C14_readback with parse_float := the ParseFloat table shipped with the case
+   and int_to_float := int_to_float_spec (nearest float, ties to even). *)
+Theorem C14_read_check_from_readback (tbl : list (bytes * option N)) (f : frame) (t : table) :
+  ferr f = false -> wf_frame f = true -> abs f = Ok t ->
+  cols f <> [] -> ix f <> [] ->
+  NoDup (col_names f) -> Forall name_ok (col_names f) ->
+  enum_tables_nodup f = true ->
+  Forall (Forall (rb_ok (pf_of tbl) int_to_float_spec)) (trows t) ->
+  exists out f',
+    frame_to_json f = Ok out /\
+    read_json (pf_of tbl) out (col_names f) (enum_conf (cols f)) = Ok f' /\
+    readback_oracle (Some f) (col_names f) (enum_conf_of (cols f)) f' = true /\
+    check_jread (Some f) out (col_names f) (enum_conf_of (cols f)) tbl f' = 0.
+Proof. exact (read_check_from_readback tbl f t). Qed.
+Print Assumptions C14_read_check_from_readback.
+
+Definition C14_example_tbl : list (bytes * option N) :=
+  [ (bs 1 0x35, Some 0x4014000000000000); (bs 3 0x2D3137, Some 0xC031000000000000); (bs 1 0x30, Some 0);
+    (bs 3 0x302E31, Some 0x3FB999999999999A);
+    (bs 18 0x2D332E313431353932363533353839373933, Some 0xC00921FB54442D18);
+    (bs 2 0x2D30, Some 0x8000000000000000) ].
+Example C14_read_check_example :
+  exists t, ferr C14_example_frame2 = false /\ wf_frame C14_example_frame2 = true /\
+    abs C14_example_frame2 = Ok t /\ cols C14_example_frame2 <> [] /\ ix C14_example_frame2 <> [] /\
+    NoDup (col_names C14_example_frame2) /\ Forall name_ok (col_names C14_example_frame2) /\
+    enum_tables_nodup C14_example_frame2 = true /\
+    Forall (Forall (rb_ok (pf_of C14_example_tbl) int_to_float_spec)) (trows t) /\
+    rb_premises C14_example_frame2 t = true.
+Proof.
+  eexists. split; [reflexivity|]. split; [vm_compute; reflexivity|]. split; [vm_compute; reflexivity|].
+  split; [discriminate|]. split; [discriminate|].
+  split; [repeat constructor; cbn [In]; intuition discriminate|].
+  split; [repeat constructor|]. split; [vm_compute; reflexivity|].
+  split; [|vm_compute; reflexivity].
+  cbn [trows].
+  repeat (constructor;
+          try exact I; try reflexivity;
+          try (split; [reflexivity|split; [reflexivity|split; [reflexivity|
+                 let text := fresh in let H := fresh in intros text H; vm_compute in H; inversion H; reflexivity]]])).
+Qed.
+
+(* the decided premises of the oracle imply the corresponding premises of C14_readback *)
+Theorem C14_rb_premises_sound (f : frame) (t : table) :
+  rb_premises f t = true ->
+  ferr f = false /\ wf_frame f = true /\ cols f <> [] /\ ix f <> [] /\
+  Forall name_ok (col_names f) /\ enum_tables_nodup f = true.
+Proof. exact (rb_premises_sound f t). Qed.
+Print Assumptions C14_rb_premises_sound.
+
+(* int_to_float_spec on samples: exact up to 2^53, ties to even above, the int64 extremes *)
+Example C14_int_to_float_spec_samples :
+  map int_to_float_spec [0; 1; -1; 5; -17; 9007199254740992; 9007199254740993; 9007199254740995;
+                         9223372036854775807; -9223372036854775808]%Z
+  = [0; 0x3FF0000000000000; 0xBFF0000000000000; 0x4014000000000000; 0xC031000000000000; 0x4340000000000000;
+     0x4340000000000000; 0x4340000000000002; 0x43E0000000000000; 0xC3E0000000000000].
+Proof. vm_compute. reflexivity. Qed.
+
+(* ---------------------------------------------------------------- "int columns returning as equal-valued floats"
+   C14_readback leaves int_to_float arbitrary (a premise per int cell says what ParseFloat returns).  Here it is
+   made concrete: int_to_float_spec z (Corr/StringsCorr.v; the function the json-read oracle uses) is the float64
+   nearest to z, ties to the even significand.
+   * C14_int_parse_nearest: a ParseFloat that rounds correctly (parse_float_correct, the specification of
+     strconv.ParseFloat used by C14_full_statement) reads the decimal text of EVERY z with |z| < 2^64 (hence
+     every Go int) as int_to_float_spec z: z lies in the rounding interval of that float, on the boundary only
+     when the significand is even.
+   * C14_int_to_float_exact: for 0 < |z| < 2^53 that float is EQUAL to z (significand m2, exponent e2 + 2 <= 0,
+     m2 = |z| * 2^-(e2+2)), with the sign of z. *)
+Theorem C14_int_parse_nearest (pf : bytes -> option N) (z : Z) :
+  parse_float_correct pf -> Z.abs_N z < 2 ^ 64 ->
+  pf (CsvWrite.itoa z) = Some (int_to_float_spec z).
+Proof. exact (int_parse_nearest pf z). Qed.
+Print Assumptions C14_int_parse_nearest.
+
+Theorem C14_int_to_float_exact (z : Z) :
+  z <> 0%Z -> Z.abs_N z < 2 ^ 53 ->
+  exists fd, decode_float (int_to_float_spec z) = Some fd /\
+             (f_e2 fd + 2 <= 0)%Z /\ f_m2 fd = Z.abs_N z * 2 ^ Z.to_N (- (f_e2 fd + 2)) /\
+             (2 ^ 63 <=? int_to_float_spec z) = (z <? 0)%Z.
+Proof. exact (int_to_float_exact z). Qed.
+Print Assumptions C14_int_to_float_exact.
+Example C14_int_to_float_exact_example :      (* -17 = -(17 * 2^48) * 2^-48 *)
+  (-17 <> 0)%Z /\ Z.abs_N (-17) < 2 ^ 53 /\
+  decode_float (int_to_float_spec (-17)) = Some {| f_m2 := 17 * 2 ^ 48; f_e2 := (-50)%Z; f_lowgap := 2 |}.
+Proof. split; [discriminate|]. split; vm_compute; reflexivity. Qed.
+
+(* The property text with the int clause made concrete (stronger than C14_full_statement, whose int_to_float is
+   any function constrained cell by cell): ints of 64 bits come back as the nearest float. *)
+Definition C14_full_statement_ints : Prop :=
+  C14_valid_statement /\
+  forall (parse_float : bytes -> option N) (f : frame) (t : table),
+    parse_float_correct parse_float ->
+    ferr f = false -> wf_frame f = true -> abs f = Ok t ->
+    cols f <> [] -> ix f <> [] ->
+    NoDup (col_names f) -> Forall name_ok (col_names f) ->
+    enum_tables_nodup f = true ->
+    Forall (Forall (fun c =>
+              match c with
+              | CInt z => Z.abs_N z < 2 ^ 64
+              | CFloat b => b < 2 ^ 64 /\ f_isnan b = false /\ f_isinf b = false
+              | CStr (Some s) | CEnum (Some s) => utf8_valid s = true
+              | _ => True
+              end)) (trows t) ->
+    exists out f',
+      frame_to_json f = Ok out /\
+      read_json parse_float out (col_names f) (enum_conf (cols f)) = Ok f' /\
+      ferr f' = false /\
+      abs f' = Ok (mkTable (tnames t) (map rb_type (ttypes t))
+                           (map (map (rb_cell int_to_float_spec)) (trows t))).
+
+(* proved from the single remaining obligation about the Ryu model (as C14_full_from_ryu_interval_partial) *)
+Theorem C14_full_ints_from_ryu_interval_partial : ryu_in_interval -> C14_full_statement_ints.
+Proof.
+  intro HR. split; [exact frame_json_valid|].
+  intros pf f t HP. exact (readback_from_spec_ints pf f t HP HR).
+Qed.
+Print Assumptions C14_full_ints_from_ryu_interval_partial.
+(* the cell premises hold for the five-type example frame (ints 5, -17, 0) and for the int64 extremes *)
+Example C14_full_ints_example :
+  (exists t, abs C14_example_frame2 = Ok t /\
+     Forall (Forall (fun c =>
+              match c with
+              | CInt z => Z.abs_N z < 2 ^ 64
+              | CFloat b => b < 2 ^ 64 /\ f_isnan b = false /\ f_isinf b = false
+              | CStr (Some s) | CEnum (Some s) => utf8_valid s = true
+              | _ => True
+              end)) (trows t)) /\
+  Z.abs_N (-9223372036854775808) < 2 ^ 64 /\ Z.abs_N 9223372036854775807 < 2 ^ 64.
+Proof.
+  split; [|split; reflexivity].
+  eexists. split; [vm_compute; reflexivity|]. cbn [trows].
+  repeat (apply Forall_cons || apply Forall_nil); try exact I; try reflexivity;
+    try (split; [reflexivity|split; reflexivity]).
+Qed.
+
+(* ---------------------------------------------------------------- ReadJSON without ColumnOrder
+   (so far listed as not covered).  Without ColumnOrder New sorts the column names (sort.Strings, Model/Ops.v
+   sort_names).  Under the premises of C14_readback, read_json with the EMPTY order and Enums(every enum column
+   with its table) succeeds and reproduces the source frame with its columns re-selected in sorted name order:
+   g = mkFrame (sort_cols (cols f)) (ix f) false, where sort_cols (Proofs/JsonCorrProofs.v) is sort_names carried
+   out on the (name, column) pairs (C14_sort_cols_spec: same names as sort_names, a permutation of the columns).
+   Its logical table tg is defined, has the sorted names, and the frame that comes back has exactly that table
+   with rb_type / rb_cell applied (ints as int_to_float, everything else identical). *)
+Theorem C14_sort_cols_spec (cs : list (bytes * coldata)) :
+  map fst (sort_cols cs) = sort_names (map fst cs) /\ Permutation.Permutation (sort_cols cs) cs.
+Proof. exact (conj (sort_cols_names cs) (sort_cols_perm cs)). Qed.
+Print Assumptions C14_sort_cols_spec.
+
+Definition C14_readback_noorder_statement : Prop :=
+  forall (parse_float : bytes -> option N) (int_to_float : Z -> N) (f : frame) (t : table),
+    ferr f = false -> wf_frame f = true -> abs f = Ok t ->
+    cols f <> [] -> ix f <> [] ->
+    NoDup (col_names f) -> Forall name_ok (col_names f) ->
+    enum_tables_nodup f = true ->
+    Forall (Forall (rb_ok parse_float int_to_float)) (trows t) ->
+    exists out f' tg,
+      frame_to_json f = Ok out /\
+      read_json parse_float out [] (enum_conf (cols f)) = Ok f' /\
+      ferr f' = false /\
+      abs (mkFrame (sort_cols (cols f)) (ix f) false) = Ok tg /\
+      tnames tg = sort_names (col_names f) /\
+      abs f' = Ok (mkTable (tnames tg) (map rb_type (ttypes tg)) (map (map (rb_cell int_to_float)) (trows tg))).
+
+Theorem C14_readback_noorder : C14_readback_noorder_statement.
+Proof. exact readback_noorder. Qed.
+Print Assumptions C14_readback_noorder.
+
+(* the example frame of C14_readback (its premises: C14_readback_example) has the column names i f b s e; read
+   without ColumnOrder it comes back with the columns b e f i s *)
+Example C14_readback_noorder_example_run :
+  match frame_to_json C14_example_frame2 with
+  | Ok out => read_json C14_example_pf out [] (enum_conf (cols C14_example_frame2))
+  | _ => Fail
+  end
+  = Ok (mkFrame
+      [ (bs 1 0x62, BCol [true; true; false]);
+        (bs 1 0x65, ECol [1; 0; 255] [bs 1 0x78; bs 1 0x79] true);
+        (bs 1 0x66, FCol [0x8000000000000000; 0x3FB999999999999A; 0xC00921FB54442D18]);
+        (bs 1 0x69, FCol [0; 0x4014000000000000; 0xC031000000000000]);
+        (bs 1 0x73, SCol [Some []; None; Some (bs 2 0x6122)]) ]
+      [0%nat; 1%nat; 2%nat] false)
+  /\ map fst (sort_cols (cols C14_example_frame2)) = [bs 1 0x62; bs 1 0x65; bs 1 0x66; bs 1 0x69; bs 1 0x73].
+Proof. vm_compute. split; reflexivity. Qed.
+
+(* and with the premises about ParseFloat replaced by its specification and int_to_float made concrete (the
+   no-ColumnOrder counterpart of C14_full_ints_from_ryu_interval_partial; cell premises: C14_full_ints_example) *)
+Theorem C14_readback_noorder_from_ryu_interval_partial :
+  ryu_in_interval ->
+  forall (parse_float : bytes -> option N) (f : frame) (t : table),
+    parse_float_correct parse_float ->
+    ferr f = false -> wf_frame f = true -> abs f = Ok t ->
+    cols f <> [] -> ix f <> [] ->
+    NoDup (col_names f) -> Forall name_ok (col_names f) ->
+    enum_tables_nodup f = true ->
+    Forall (Forall (fun c =>
+              match c with
+              | CInt z => Z.abs_N z < 2 ^ 64
+              | CFloat b => b < 2 ^ 64 /\ f_isnan b = false /\ f_isinf b = false
+              | CStr (Some s) | CEnum (Some s) => utf8_valid s = true
+              | _ => True
+              end)) (trows t) ->
+    exists out f' tg,
+      frame_to_json f = Ok out /\
+      read_json parse_float out [] (enum_conf (cols f)) = Ok f' /\
+      ferr f' = false /\
+      abs (mkFrame (sort_cols (cols f)) (ix f) false) = Ok tg /\
+      tnames tg = sort_names (col_names f) /\
+      abs f' = Ok (mkTable (tnames tg) (map rb_type (ttypes tg))
+                           (map (map (rb_cell int_to_float_spec)) (trows tg))).
+Proof. intros HR pf f t HP. exact (readback_noorder_from_spec pf f t HP HR). Qed.
+Print Assumptions C14_readback_noorder_from_ryu_interval_partial.
